@@ -98,3 +98,81 @@ prop(
     [st("checked"), st("release")],
     ["a target within 1e-7 of x.5 accepts both neighbouring totals"],
 )
+
+prop(
+    "C04",
+    "exploration",
+    "voices = the bundled voice (every corpus line in the thorough tier, a slice in quick, plus field-recombined labels) and generated voices over {1..7 states, 2/3 streams, vector lengths, 5 window sets, tree depth 0..4 incl. single-leaf trees, quoted/unquoted/mixed leaf names, questions sampled from the bundled voice's 783 questions incl. the 3 regex-fallback ones forced at the root}; for every (label, state, model in duration/streams/GV) the Gaussians returned by the public Model API must be bit-equal to the float32 entries selected by the independent reader's tree walk with the wildcard matcher; header fields, options, window coefficients and engine defaults compared exactly; non-trivial = a lookup that traverses >= 2 internal nodes with >= 1 'yes'; distinct by (voice, model, tree, leaf)",
+    [st("checked")],
+    [st("checked"), st("asan", name="asan", args=["--sub", "synthetic", "--scale", "0.25"], env=ASAN_ENV, canary="asan", death_is_violation=True)],
+    ["gamma stage and log-gain flag of the engine are read from Condition's Debug output (no public getter)", "generator ground truth and independent reader are cross-checked for every generated voice"],
+)
+prop(
+    "C09",
+    "exploration",
+    "annotations: EVERY presence pattern of {start,end} per label for 1..4 (quick) / 1..5 (thorough) labels x 5 time shapes (monotone, shuffled, zero-length, fractional/.5-frame, huge gaps) at the estimator level through Labels::new + DurationEstimator::create_with_alignment; random longer ones; Labels::load_from_strings unit/inheritance check; end-to-end utterances of the bundled voice (hooked durations, waveform length) with frame-period and rate overrides; oracle = exact integer arithmetic on the raw 100 ns annotation; non-trivial = >= 1 inherited end and >= 1 group spanning >= 2 labels",
+    [st("checked", death_is_violation=True)],
+    [st("checked", death_is_violation=True), st("release", death_is_violation=True)],
+    ["a known end within 1e-9 of a .5-frame tie accepts both roundings"],
+    exhaustive_part="the sub-space 'presence-exhaustive' is enumerated completely; everything else is sampled",
+)
+prop(
+    "C10",
+    "exploration",
+    "voice sets of 1..4: bundled + PDF-perturbed copies, identical copies, generated voices with equal metadata but different trees; dyadic weight vectors (k/64, exact sum 1) on the simplex, vertices, and with negative / over-unity components, set independently for duration, each stream and each GV; every duration / stream / GV Gaussian from the public Models API compared with the weighted average of the per-voice Gaussians within 8 eps * sum|terms|; vertex weights: parameters and waveform bit-equal to the first voice; non-trivial = >= 2 voices whose selected Gaussians differ and a non-vertex weight",
+    [st("checked")],
+    [st("checked"), st("release")],
+)
+prop(
+    "C11",
+    "exploration",
+    "per utterance a grid of ~15 thresholds on stream 1 incl. 0, 1, exact voicing weights of the utterance's states and their neighbours one ulp away; voices: bundled, PDF-perturbed, generated (voicing weights spread over (0,1) incl. exactly 0.5); hooked log-F0 trajectory must be voiced exactly where weight > threshold (weights from the independent reader), raising the threshold never voices a frame, other streams' trajectories stay bit-equal when one stream's threshold or GV weight changes; transparent generated voices: unvoiced frames reproduce the reference noise sequence bit for bit, voiced frames contain pulses only; non-trivial = >= 1 frame flips over the threshold grid (or both kinds of frame for transparent voices)",
+    [st("checked")],
+    [st("checked"), st("release")],
+)
+prop(
+    "C12",
+    "exploration",
+    "utterances of 10..60 corpus labels (consecutive / shuffled) on the bundled voice and perturbed copies x GV weights {0.25,0.5,1,2} + one random weight, both GV streams; eligibility computed with the harness' wildcard matcher on the file's GV_OFF_CONTEXT; variance ratio in [0.8,1.2] per coefficient when >= 100 frames are eligible, strictly increasing over the weight grid; silence-only utterances: trajectory equals the gv=None solution; stream without GV bit-equal for any GV weight; non-trivial = >= 100 eligible frames in a GV stream",
+    [st("checked")],
+    [st("checked"), st("release")],
+)
+prop(
+    "C15",
+    "exploration",
+    "h in [-24,24] (integers, fractions, +-0, corners) x random conditions (GV on) x utterances, on the bundled voice, perturbed copies and generated voices; hooked trajectories at h vs 0: same durations and V/UV mask, spectrum and low-pass bit-equal, log-F0 shifted by h*ln2/12 within 1e-9 at every voiced frame unless a voiced state's mean reaches the 20 Hz / 20 kHz limit (then only the isolation clauses); h = 0 bit-equal incl. the waveform; non-trivial = h != 0 with >= 1 voiced frame under the shift law",
+    [st("checked")],
+    [st("checked"), st("release")],
+    ["utterances whose voiced log-F0 trajectory is numerically constant while GV is on are not judged by the shift law (GV only rescales rounding noise there)"],
+)
+prop(
+    "C16",
+    "exploration",
+    "v in [-60,60] dB (0, +-6.0206, corners, random) x random conditions x utterances on bundled and generated voices (both filter families, 2 and 3 streams): every sample at v dB equals 10^(v/20) times the 0 dB sample within 32 eps, equal length, no other setting changes, get_volume returns v within 1e-12; non-trivial = v != 0 and a non-silent waveform",
+    [st("checked")],
+    [st("checked"), st("release")],
+    ["samples that are non-finite at 0 dB (outside the stable range, see C01) are not compared"],
+)
+prop(
+    "C17",
+    "exploration",
+    "forms: &[&str], &[String], Vec<String>, &[String; N] (N in 1..8), with blank lines, with 100 ns time stamps and float-spelled times (1e400, inf, NaN, -1) while alignment is off, all compared bit-for-bit with the parsed-label form; corruptions of corpus lines (14 kinds: chunk deletion/duplication, symbol substitution, unicode insertion, truncation, extra spaces, one time only, two times without label, unparsable times, trailing token, 10k characters, random ASCII) must give Ok or Err, never a panic; non-trivial = form comparison done / corruption rejected by jlabel's parser",
+    [st("checked", death_is_violation=True)],
+    [st("checked", death_is_violation=True), st("asan", name="asan", args=["--sub", "corruptions", "--scale", "0.1"], env=ASAN_ENV, canary="asan", death_is_violation=True)],
+)
+prop(
+    "C19",
+    "exploration",
+    "metadata: 15 single-field mutations (rate, frame period, states, streams, stream type, format/version strings, GV-off context, vector length, window count, MSD flag, GV flag, option, last stream only) x 6 list shapes (pairs and triples with the odd one in every position, quadruple) on in-memory copies of the bundled and generated voices - enumerated; empty list; differing stream count. Weights: every history up to length 3 over a 7-update alphabet (valid, wrong length, bad sum, NaN, negative) on a 2-voice engine - enumerated; random histories of 1..12 updates on 2..4-voice engines against a reference state machine (getter and next waveform after every update, final comparison with a fresh engine given the effective weights); non-trivial = history with >= 1 accepted and >= 1 rejected update, or a metadata case",
+    [st("checked")],
+    [st("checked"), st("release")],
+    ["sums with 0 < |sum-1| < 1e-6 may be accepted or rejected; the model follows the reported outcome"],
+    exhaustive_part="the sub-spaces 'metadata' and 'weights-exhaustive' are enumerated completely; 'weights-random' is sampled",
+)
+prop(
+    "C20",
+    "exploration",
+    "random call orders (1..40 calls) over every setter with arguments from {0, -0.0, +-subnormal, +-1e-300, +-1e300, 0.5, 1, 1+-ulp, 1e-6+-ulp, usize::MAX, random magnitudes} and every stream index in range, on the bundled voice and generated 2/3-stream voices; after every call all getters are compared with a reference Condition model and the volume getter must not move; fresh engines compared with the documented defaults and the header; distinct by call sequence",
+    [st("checked")],
+    [st("checked"), st("release")],
+)
